@@ -350,7 +350,7 @@ class Check:
         self.cov["traces_validated_against_impl"] += len(tids)
         bad = {}
         for v in verdicts:
-            self.cov["drift"] += len(v["drift"])
+            self._count_drift(v)
             mine = [c for c in v["fails"] if c.startswith(self.pid + ".")]
             if mine:
                 bad.setdefault(v["tid"], []).append((v, mine))
@@ -403,7 +403,7 @@ class Check:
                                                       "calls": len({v["tid"] for v in verdicts})})
         bad = {}
         for v in verdicts:
-            self.cov["drift"] += len(v["drift"])
+            self._count_drift(v)
             mine = [c for c in v["fails"] if c.startswith(self.pid + ".")]
             if mine:
                 bad.setdefault(v["tid"], []).append((v, mine))
@@ -441,6 +441,18 @@ class Check:
             self.violations.append((sorted({c for c, _ in unknown}), path))
 
     # -- wrap up ------------------------------------------------------------
+    def _count_drift(self, v):
+        """L2: entries "L2+<op>" only say that the implementation-shaped prediction was computed for the
+        event; everything else is a disagreement between prediction and code (never an alarm)."""
+        pred = self.cov.setdefault("l2_predicted", {})
+        for d in v["drift"]:
+            if d.startswith("L2+"):
+                pred[d[3:]] = pred.get(d[3:], 0) + 1
+            else:
+                self.cov["drift"] += 1
+                self.cov.setdefault("drift_clauses", {}).setdefault(d, 0)
+                self.cov["drift_clauses"][d] += 1
+
     def finish(self):
         wall = time.time() - self.t0
         cov = self.cov
